@@ -128,6 +128,27 @@ def sources(macros, order, main):
     """-> (source with macros, source inlined)"""
     inl = tuple(subst(main, {}, macros))
     outs, hooks, fin, yld = U.used(inl)
+    outs, hooks, fin, yld = set(outs), set(hooks), set(fin), set(yld)
+    # names that only occur as arguments (e.g. of a macro that does not use its parameter) must be declared as well - in both versions
+    def scan(stmts):
+        for st in stmts:
+            if st[0] == "call":
+                for a in st[2]:
+                    if isinstance(a, str):
+                        if a in U.ENV:
+                            outs.add(a)
+                        elif a in U.HOOKS:
+                            hooks.add(a)
+                        elif a in ("F", "G"):
+                            fin.add(a)
+                        elif a in ("Y", "Z"):
+                            yld.add(a)
+            for x in st[1:]:
+                if isinstance(x, tuple) and x and isinstance(x[0], tuple):
+                    scan([y for y in x if isinstance(y, tuple) and y and isinstance(y[0], str)])
+    scan(main)
+    for nm in macros:
+        scan(macros[nm][1])
     decl = [U.ENV[o] for o in U.ORDER if o in outs]
     decl += ["hook %s;" % h for h in U.HOOKS if h in hooks]
     if fin:
@@ -236,6 +257,13 @@ def shapes(tier):
                                                                   ("match", MP("d")), ("try", (("append", "t", ("re", q("a", "+"))),), ("outofspace",), (("hook", "k"), ("delete", "t")))))}
     for d in (L(";"), ("re", RX["[ab]"]), L("::")):
         add(big, ["rd"], (("call", "rd", ("s", d, "h")), ("match", L("!")), ("hook", "g")))
+    # 11. macros with empty bodies whose parameters are named like globals: the bindings exist only inside the (empty) body
+    em = {"note": ((("out", "s"),), ()), "note2": ((("expr", "n"), ("hook", "h")), ()), "note3": ((("match", "m"), ("finishcode", "F")), ())}
+    add(em, ["note", "note2"], (("set", "n", ("num", 1)), ("match", L("x")), ("call", "note", ("u",)), ("append", "s", L("a")), ("hook", "h"), ("match", L("b")),
+                                ("call", "note2", (("num", 5), "g")), ("set", "m", ("var", "n")), ("hook", "h")))
+    add(em, ["note", "note2"], (("append", "s", L("a")), ("call", "note", ("u",)), ("match", L("b")), ("set", "m", ("var", "n")), ("call", "note2", (("num", 5), "g")), ("hook", "h"), ("match", L("c"))))
+    add(em, ["note3"], (("match", L("a")), ("call", "note3", (L("zz"), "G")), ("optional", (("match", L("b")), ("finish", "F"))), ("match", L("c"))))
+    add(em, ["note"], (("loop", None, (("append", "s", ("re", RX["[ab]"])), ("call", "note", ("u",)), ("optional", (("match", L(";")), ("break", None))))), ("call", "note", ("u",)), ("setstr", "s", b"k"), ("hook", "h"), ("match", L("c"))))
     return out
 
 
@@ -260,6 +288,20 @@ def error_cases():
         src2 = base_decl + "macro leaf() { \"q\"; }\nmacro mm(%s %s) { %s }\nparser { loop outer { \"z\"; mm(%s, %s); } }\n" % (KINDWORD[pk], pn, body, args[pk], args[pk])
         out.append((src0, "%s parameter: no argument" % pk, ["-fyield-support"]))
         out.append((src2, "%s parameter: two arguments" % pk, ["-fyield-support"]))
+    # bodies in which a value of the wrong kind would happen to parse, or which do not use the parameter at all: the kind check is the only defence
+    alt = {"expr": ['wait e;', 's += e;', '"a";'], "match": ['n = m; "a";', '"a"; n = [m + 1];', '"a";'], "out": ['"a";'], "hook": ['"a";'], "loop": ['"a";'],
+           "finishcode": ['"a";'], "yieldcode": ['"a";'], "macro": ['"a";']}
+    args2 = dict(args, bool="true", char="'c'", binary='b"6162"', casei='"ab"i', string='"ab"')
+    legal = {("match", "regex"), ("match", "string"), ("match", "binary"), ("match", "casei"), ("match", "match"), ("expr", "number"), ("expr", "out"), ("expr", "bool"), ("expr", "char"),
+             ("expr", "string"), ("expr", "expr"), ("expr", "match")}
+    for pk, blist in alt.items():
+        pn = bodies[pk][0]
+        for body in blist:
+            for ak, atext in args2.items():
+                if ak == pk or (pk, ak) in legal:
+                    continue
+                src = base_decl + "macro leaf() { \"q\"; }\nmacro mm(%s %s) { %s }\nparser { loop outer { \"z\"; mm(%s); } }\n" % (KINDWORD[pk], pn, body, atext)
+                out.append((src, "%s parameter (body %r) given a %s argument" % (pk, body, ak), ["-fyield-support"]))
     out.append((base_decl + 'macro a() { b(); }\nmacro b() { a(); }\nparser { "x"; a(); }\n', "recursive macros", []))
     out.append((base_decl + 'macro a() { "q"; }\nparser { "x"; nosuch(); }\n', "call of an undefined macro/hook", []))
     out.append((base_decl + 'macro a(out t, out t) { t += "a"; }\nparser { a(s, s); }\n', "duplicate parameter name", []))
